@@ -126,7 +126,10 @@ def abs1(ctx, pid):
                 diffs.append("case %s -> %s is not in the confirmed table" % (k, sorted(rows[k])))
             else:
                 diffs.append("unexpected case %s -> %s" % (k, sorted(rows[k])))
-    if diffs:
+    endless = any(isinstance(n_, ast.While) and isinstance(n_.test, ast.Constant) for n_ in ast.walk(g.node))
+    if diffs and endless:
+        ctx.unsure(c, g.loc(), "the traversal loop is a `while True` state machine the hop table is not written for (%s)" % diffs[0][:90])
+    elif diffs:
         ctx.bad(c, g.loc(), "one traversal hop: " + diffs[0], witness={"differences": diffs, "table": {k: sorted(v) for k, v in rows.items()}})
     else:
         ctx.ok(c, g.loc(), "blank -> blank; leaf -> partial iff the residual key is a prefix of the leaf key, else blank; extension -> partial / child / blank via _traverse_extension; branch -> child key[0] with key[1:]")
